@@ -105,7 +105,7 @@ def main():
             "replay_cmd_template": "./check replay {path}",
             "engine": "zverif",
             "level_claimed": {"category": cat, "text": text, "design_ref": f"DESIGN.md §6 {pid}"},
-            "level_note": note + (" Thorough tier, supplementary: the quick-tier enumeration is re-run in an AddressSanitizer build of the engine (intra-allocation overruns abort the worker and are attributed to the case); skipped with a note when no nightly toolchain is present." if pid in ("C02", "C06", "C14", "C16", "C19") else "") + " Thorough tier, supplementary: the quick-tier enumeration is re-run in a build with overflow checks and debug assertions (an arithmetic overflow or failed internal assertion aborts the worker and is attributed to the case).",
+            "level_note": note + (" Thorough tier, supplementary: the quick-tier enumeration is re-run in an AddressSanitizer build of the engine (intra-allocation overruns abort the worker and are attributed to the case); skipped with a note when no nightly toolchain is present." if pid in ("C02", "C06", "C14", "C16", "C19") else "") + " Thorough tier, supplementary: the quick-tier enumeration is re-run in a build with overflow checks and debug assertions (an arithmetic overflow or failed internal assertion aborts the worker and is attributed to the case). The families the final commit enumerates, their sizes and the completed thorough bounds are tabulated in DESIGN.md 11.9; 11.8 lists the 180 seeded changes and the families each one led to.",
             "technique": tech,
         })
     na = [{"property_id": p["id"], "reason": NOT_YET} for p in props if p["id"] not in CHECKS]
